@@ -23,6 +23,19 @@ const char* fam_name(int f) { static const char* n[] = {"kll", "req-hra", "req-l
 
 typedef int32_t V;  // item type: small integers, exact comparisons
 
+// The sketches are instantiated with a comparator that has state: the instance handed to the constructor (and to deserialize) decides the
+// direction, a default-constructed one orders ascending. In a "desc" scenario the items enter negated and leave negated again, so that
+// the order the sketch works with is the numeric order of the scenario's values in both directions and the model is unchanged.
+struct Dir {
+  bool desc = false;
+  Dir() = default;
+  explicit Dir(bool d): desc(d) {}
+  bool operator()(V a, V b) const { return desc ? b < a : a < b; }
+};
+typedef kll_sketch<V, Dir> KllSk;
+typedef req_sketch<V, Dir> ReqSk;
+typedef quantiles_sketch<V, Dir> ClsSk;
+
 std::vector<V> pattern(uint64_t n, int pat, uint64_t seed, V lo) {
   std::vector<V> v; v.reserve(n);
   vf::Rng r(seed);
@@ -40,15 +53,16 @@ std::vector<V> pattern(uint64_t n, int pat, uint64_t seed, V lo) {
 
 struct Scenario {
   int fam; std::vector<int> ks;                 // k per sketch slot
-  struct Step { int kind; int a, b; std::vector<V> items; };  // 0: update slot a with items; 1: merge slot b into slot a (lvalue); 2: same, rvalue copy; 3: slot a := deserialize(serialize(slot a)) (b: 0 bytes, 1 stream)
+  struct Step { int kind; int a, b; std::vector<V> items; };  // 0: update slot a with items; 1: merge slot b into slot a (lvalue); 2: same, rvalue copy; 3: slot a := deserialize(serialize(slot a)) (b: 0 bytes, 1 stream); 4: slot a answers a query (b: 0 rank, 1 quantile, 2 sorted view) in mid-history
   std::vector<Step> steps;
   int nslots = 0;
+  bool desc = false;
 };
 
-template <typename SK> SK make(int fam, int k);
-template <> kll_sketch<V> make<kll_sketch<V>>(int, int k) { return kll_sketch<V>(static_cast<uint16_t>(k)); }
-template <> req_sketch<V> make<req_sketch<V>>(int fam, int k) { return req_sketch<V>(static_cast<uint16_t>(k), fam == REQ_HRA); }
-template <> quantiles_sketch<V> make<quantiles_sketch<V>>(int, int k) { return quantiles_sketch<V>(static_cast<uint16_t>(k)); }
+template <typename SK> SK make(int fam, int k, bool desc);
+template <> KllSk make<KllSk>(int, int k, bool desc) { return KllSk(static_cast<uint16_t>(k), Dir(desc)); }
+template <> ReqSk make<ReqSk>(int fam, int k, bool desc) { return ReqSk(static_cast<uint16_t>(k), fam == REQ_HRA, Dir(desc)); }
+template <> ClsSk make<ClsSk>(int, int k, bool desc) { return ClsSk(static_cast<uint16_t>(k), Dir(desc)); }
 
 uint64_t rand_draws_since(uint64_t seed, uint64_t limit);
 
@@ -59,18 +73,28 @@ struct QueryGrid { bool on = false; V lo = 0, hi = 0; std::vector<std::vector<ui
 
 // REQ publishes, per rank, an interval; a zero-width 3-sigma interval is the sketch's claim that the rank is exact (accurate end)
 template <typename SK> struct ExactClaim { static bool at(const SK&, double) { return false; } };
-template <> struct ExactClaim<req_sketch<V>> { static bool at(const req_sketch<V>& sk, double rank) { return sk.get_rank_lower_bound(rank, 3) == rank && sk.get_rank_upper_bound(rank, 3) == rank; } };
+template <> struct ExactClaim<ReqSk> { static bool at(const ReqSk& sk, double rank) { return sk.get_rank_lower_bound(rank, 3) == rank && sk.get_rank_upper_bound(rank, 3) == rank; } };
 
 template <typename SK>
 void execute(const Scenario& sc, std::vector<std::vector<std::pair<V, uint64_t>>>& out, std::vector<uint64_t>& ns,
              std::vector<int>* stride_log = nullptr, uint64_t probe_seed = 0, QueryGrid* grid = nullptr) {
   std::vector<SK> sk;
-  for (int i = 0; i < sc.nslots; ++i) sk.push_back(make<SK>(sc.fam, sc.ks[i]));
+  const bool desc = sc.desc;
+  auto enc = [desc](V v) { return desc ? static_cast<V>(-v) : v; };
+  for (int i = 0; i < sc.nslots; ++i) sk.push_back(make<SK>(sc.fam, sc.ks[i], desc));
   for (const auto& st : sc.steps) {
-    if (st.kind == 0) { for (V v : st.items) sk[st.a].update(v); continue; }
+    if (st.kind == 0) { for (V v : st.items) sk[st.a].update(enc(v)); continue; }
+    if (st.kind == 4) {  // const queries may reorganise the sketch internally (sorting, cached view); they use no coins and change no answer
+      const SK& q = sk[st.a];
+      if (q.is_empty()) continue;
+      if (st.b == 0) (void)q.get_rank(enc(110), true);
+      else if (st.b == 1) (void)q.get_quantile(0.5, true);
+      else (void)q.get_sorted_view();
+      continue;
+    }
     if (st.kind == 3) {  // the sketch goes through its serialized image in mid-history (whatever the image does not carry - coins - is drawn again)
-      if (st.b == 0) { auto bytes = sk[st.a].serialize(); sk[st.a] = SK::deserialize(bytes.data(), bytes.size()); }
-      else { std::stringstream ss(std::ios::in | std::ios::out | std::ios::binary); sk[st.a].serialize(ss); sk[st.a] = SK::deserialize(ss); }
+      if (st.b == 0) { auto bytes = sk[st.a].serialize(); sk[st.a] = SK::deserialize(bytes.data(), bytes.size(), serde<V>(), Dir(desc)); }
+      else { std::stringstream ss(std::ios::in | std::ios::out | std::ios::binary); sk[st.a].serialize(ss); sk[st.a] = SK::deserialize(ss, serde<V>(), Dir(desc)); }
       continue;
     }
     uint64_t before = 0; int ka = 0, kb = 0;
@@ -89,7 +113,7 @@ void execute(const Scenario& sc, std::vector<std::vector<std::pair<V, uint64_t>>
     if (sk[i].is_empty()) continue;
     size_t guard = 0;
     for (auto it = sk[i].begin(); it != sk[i].end(); ++it) {
-      out[i].emplace_back((*it).first, static_cast<uint64_t>((*it).second));
+      out[i].emplace_back(enc((*it).first), static_cast<uint64_t>((*it).second));
       if (++guard > 100000) break;
     }
   }
@@ -103,10 +127,10 @@ void execute(const Scenario& sc, std::vector<std::vector<std::pair<V, uint64_t>>
       double dn = static_cast<double>(sk[i].get_n());
       for (size_t q = 0; q < nq; ++q) {
         V v = grid->lo + static_cast<V>(q);
-        grid->le[i][q] = static_cast<uint64_t>(std::llround(sk[i].get_rank(v, true) * dn));
-        grid->lt[i][q] = static_cast<uint64_t>(std::llround(sk[i].get_rank(v, false) * dn));
-        grid->exact_le[i][q] = ExactClaim<SK>::at(sk[i], sk[i].get_rank(v, true));
-        grid->exact_lt[i][q] = ExactClaim<SK>::at(sk[i], sk[i].get_rank(v, false));
+        grid->le[i][q] = static_cast<uint64_t>(std::llround(sk[i].get_rank(enc(v), true) * dn));
+        grid->lt[i][q] = static_cast<uint64_t>(std::llround(sk[i].get_rank(enc(v), false) * dn));
+        grid->exact_le[i][q] = ExactClaim<SK>::at(sk[i], sk[i].get_rank(enc(v), true));
+        grid->exact_lt[i][q] = ExactClaim<SK>::at(sk[i], sk[i].get_rank(enc(v), false));
       }
     }
   }
@@ -152,7 +176,7 @@ void run_family(const Scenario& sc0, const Case& cs) {
   std::vector<std::vector<V>> truth(sc.nslots);
   for (const auto& st : sc.steps) {
     if (st.kind == 0) truth[st.a].insert(truth[st.a].end(), st.items.begin(), st.items.end());
-    else if (st.kind == 3) continue;
+    else if (st.kind == 3 || st.kind == 4) continue;
     else { std::vector<V> add = truth[st.b]; truth[st.a].insert(truth[st.a].end(), add.begin(), add.end()); }
   }
   V qlo = 0, qhi = 0; bool have = false;
@@ -249,8 +273,11 @@ void run_family(const Scenario& sc0, const Case& cs) {
   vf::count("outcomes", outcomes);
   vf::count("req-exact-zone-queries-checked", exact_claims);
   vf::count("req-exact-zone-queries-without-zero-width-interval", zone_not_claimed);
-  bool merged = false, rt = false; for (auto& st : sc.steps) { merged |= st.kind == 1 || st.kind == 2; rt |= st.kind == 3; }
+  bool merged = false, rt = false, qbm = false, qseen = false;
+  for (auto& st : sc.steps) { merged |= st.kind == 1 || st.kind == 2; rt |= st.kind == 3; if (st.kind == 4) qseen = true; else if ((st.kind == 1 || st.kind == 2) && qseen) qbm = true; }
   if (rt) vf::label("round-trip-in-mid-history");
+  if (qbm) vf::label("query-before-merge");
+  vf::label(sc.desc ? "comparator:descending-instance" : "comparator:ascending-instance");
   vf::label(std::string("family:") + fam_name(sc.fam));
   if (merged) vf::label("merge");
   if (f >= 3) vf::label("f>=3");
@@ -263,6 +290,7 @@ void run_family(const Scenario& sc0, const Case& cs) {
 void prop(const Case& cs) {
   Scenario sc;
   sc.fam = static_cast<int>(cs.get("fam", 0) % NFAM);
+  sc.desc = cs.get("desc", 0) & 1;
   auto legal_k = [&](int64_t sel) -> int {
     switch (sc.fam) {
       case KLL: return 8 + static_cast<int>(sel % 5);                 // 8..12
@@ -290,23 +318,26 @@ void prop(const Case& cs) {
     } else if (op.name == "rt") {
       if (!sc.nslots) continue;
       sc.steps.push_back(Scenario::Step{3, static_cast<int>(op.uarg(0) % sc.nslots), static_cast<int>(op.uarg(1) & 1), {}});
+    } else if (op.name == "q") {
+      if (!sc.nslots) continue;
+      sc.steps.push_back(Scenario::Step{4, static_cast<int>(op.uarg(0) % sc.nslots), static_cast<int>(op.uarg(1) % 3), {}});
     }
   }
   if (!sc.nslots) return;
   switch (sc.fam) {
-    case KLL: run_family<kll_sketch<V>>(sc, cs); break;
-    case REQ_HRA: case REQ_LRA: run_family<req_sketch<V>>(sc, cs); break;
-    default: run_family<quantiles_sketch<V>>(sc, cs);
+    case KLL: run_family<KllSk>(sc, cs); break;
+    case REQ_HRA: case REQ_LRA: run_family<ReqSk>(sc, cs); break;
+    default: run_family<ClsSk>(sc, cs);
   }
 }
 
 rc::Gen<Case> gen() {
   using namespace vf;
   auto leaf = op4("leaf", range(0, 9), rc::gen::weightedOneOf<int64_t>({{1, range(0, 3)}, {3, range(4, 40)}, {3, range(40, 119)}}), range(0, 4), range(0, 1 << 20));
-  auto hist = choose({{4, op3("merge", range(0, 3), range(0, 3), range(0, 1))}, {3, op4("upd", range(0, 3), range(1, 59), range(0, 4), range(0, 1 << 20))}, {2, op2("rt", range(0, 3), range(0, 1))}});
+  auto hist = choose({{4, op3("merge", range(0, 3), range(0, 3), range(0, 1))}, {3, op4("upd", range(0, 3), range(1, 59), range(0, 4), range(0, 1 << 20))}, {2, op2("rt", range(0, 3), range(0, 1))}, {3, op2("q", range(0, 3), range(0, 2))}});
   auto ops = rc::gen::map(rc::gen::tuple(rc::gen::mapcat(rc::gen::weightedOneOf<int64_t>({{1, range(1, 1)}, {5, range(2, 4)}}), [leaf](int64_t n) { return rc::gen::container<std::vector<Op>>(static_cast<size_t>(n), leaf); }), oplist(hist, 2, 0.07)),
                           [](std::tuple<std::vector<Op>, std::vector<Op>> t) { auto v = std::get<0>(t); auto& h = std::get<1>(t); v.insert(v.end(), h.begin(), h.end()); return v; });
-  return make_case({{"fam", range(0, NFAM - 1)}}, ops);
+  return make_case({{"fam", range(0, NFAM - 1)}, {"desc", range(0, 1)}}, ops);
 }
 
 }  // namespace
